@@ -96,6 +96,42 @@ class Ctx:
             self.samples.append(jsonable(obj))
 
 
+def run_case_fresh(ctx: "Ctx", case: dict, timeout: float = 900.0):
+    """runs one case of the current driver in a fresh interpreter (nothing has been constructed, cached or
+    created on first use there yet) and merges what its monitors observed into ctx"""
+    tmp = os.environ.get("VERIF_TMP") or tempfile.gettempdir()
+    out = os.path.join(tmp, "fresh_%d_%d.json" % (os.getpid(), ctx.counters.get("fresh_interpreter_cases", 0)))
+    env = dict(os.environ, VERIF_REPLAY_CASE=json.dumps(jsonable(case)), VERIF_SHARD_BUDGET="1e9")
+    ctx.count("fresh_interpreter_cases")
+    try:
+        p = subprocess.run([PY, "-B", "-X", "faulthandler"] + own_flags() + ["-m", "vf.harness", "--shard", ctx.prop, ctx.tier, str(ctx.seed), "0", "1", out],
+                           env=env, cwd=VERIF, capture_output=True, text=True, timeout=timeout)
+    except subprocess.TimeoutExpired:
+        ctx.errors.append({"case": jsonable(case), "tb": "fresh interpreter exceeded the wall-clock watchdog"})
+        return None
+    if not os.path.exists(out):
+        ctx.errors.append({"case": jsonable(case), "tb": "fresh interpreter died (exit %s): %s" % (p.returncode, (p.stdout + p.stderr)[-1500:])})
+        return None
+    with open(out) as fh:
+        res = json.load(fh)
+    for k, v in res["counters"].items():
+        if k != "evaluations" or True:
+            ctx.count(k, v)
+    for v in res["violations"]:
+        ctx.viol_count += 1
+        if len(ctx.violations) < MAX_VIOL_KEPT:
+            v["case"] = jsonable(case)
+            ctx.violations.append(v)
+    ctx.viol_count += max(0, res["viol_count"] - len(res["violations"]))
+    ctx.errors += res["errors"]
+    hp = out + ".hashes"
+    if os.path.exists(hp):
+        with open(hp, "rb") as fh:
+            b = fh.read()
+        ctx.hashes.update(struct.unpack(f"<{len(b)//8}Q", b))
+    return res
+
+
 # ----------------------------------------------------------------------------- shard
 def own_flags():
     """interpreter flags of this shard, for the helper processes it starts (like is compared with like)"""
